@@ -51,6 +51,11 @@ IdeoStop == <<227, 128, 130>>   FullStop == <<239, 188, 142>>   HalfStop == <<23
 OtherDots == UNION { { <<109, 97, 105, 108>> \o sp \o <<99, 111, 109>>, <<208, 191>> \o sp \o rf, <<120>> \o sp \o <<122, 122, 122, 113>>,
                        <<120, DOT, 121>> \o sp \o <<99, 111, 109>>, <<120>> \o sp \o <<121>> \o sp \o <<111, 114, 103>>, <<120>> \o sp \o S_test }
                      : sp \in {IdeoStop, FullStop, HalfStop} }
+\* U-labels to the left of the reserved names (the reserved-name test is made on the converted name, whatever had to be converted)
+pochta == <<208, 191, 208, 190, 209, 135, 209, 130, 208, 176>>
+UReserved == { JoinWith(<<l, r>>, DOT) : l \in {pochta, <<195, 169>>, pochta \o <<DOT>> \o <<120>>},
+                                         r \in {S_test, S_example, S_invalid, S_localhost, S_onion, S_example \o <<DOT>> \o S_com,
+                                                 S_example \o <<DOT>> \o S_org, S_example \o <<DOT>> \o S_net, S_example \o <<DOT>> \o <<99, 111>>, <<116, 101, 115, 116, 115>>} }
 Init == d = <<>> /\ k = 0
 Next == \/ Part = 1 /\ k < MaxLabels /\ \E l \in Labels : d' = (IF k = 0 THEN l ELSE d \o <<DOT>> \o l) /\ k' = k + 1
         \/ Part = 2 /\ k = 0 /\ \E i \in {j \in 1..NRows : TldU[j] # TldRows[j][1]} :
@@ -58,7 +63,7 @@ Next == \/ Part = 1 /\ k < MaxLabels /\ \E l \in Labels : d' = (IF k = 0 THEN l 
                                                     [] v = 2 -> TldU[i] \o <<DOT>> \o TldU[i]
                                                     [] v = 3 -> <<208, 191, DOT>> \o TldU[i]
         \/ Part = 3 /\ k = 0 /\ \E v \in Violations : d' = v /\ k' = 1
-        \/ Part = 2 /\ k = 0 /\ \E v \in LongU \cup OtherDots : d' = v /\ k' = 1
+        \/ Part = 2 /\ k = 0 /\ \E v \in LongU \cup OtherDots \cup UReserved : d' = v /\ k' = 1
 MustReject == Part = 3
 Inv == k >= 1 => PrintT(ToJson(<<17, IF MustReject THEN 1 ELSE 0, Len(d)>> \o d))
 =============================================================================
